@@ -23,7 +23,8 @@ done
 for f in seeded_benign/*.diff; do
   n=$(basename $f .diff)
   case $n in B1_benign1) props=C03;; B1_benign2) props=C19;; B1_benign3) props=C17;; B1_benign4) props=C17;; B1_benign5) props=C06;; B1_benign6) props=C03;;
-    B2_benign1) props=C16;; B2_benign2) props=C16;; B2_benign3) props=C11;; B2_benign4) props=C14;; B2_benign5) props=C13;; B2_benign6) props=C13;; *) props="C03";; esac
+    B2_benign1) props=C16;; B2_benign2) props=C16;; B2_benign3) props=C11;; B2_benign4) props=C14;; B2_benign5) props=C13;; B2_benign6) props=C13;;
+    B3_benign1|B3_benign2|B3_benign3|B3_benign5) props=C12;; B3_benign4) props=C10;; B3_benign6|B3_benign7) props=C20;; B3_benign8|B3_benign9) props=C03;; B3_benign10) props=C18;; *) props="C03";; esac
   r=$(./tools_seedtest.sh /verif/$f $props 2>&1)
   echo "BENIGN $n $(echo "$r" | grep -o 'rc=[0-9]*' | tr '\n' ' ') violations=$(echo "$r" | grep -c VIOLATION)" >> $out
 done
